@@ -260,6 +260,8 @@ def parse_races(stderr, repo):
                     fn = re.sub(r"\.func\d+(\.\d+)*$", "", fn)
                     frames.append((fn, fil[len(repo) + 1:] + ":" + line))
             accs.append({"kind": h.group(1), "frames": frames[:4], "stack": frames})
+        if accs and all(not a["stack"] for a in accs):
+            continue        # both stacks entirely inside the stress program itself (its result record, read while goroutines are stuck after a deadlock)
         res.append({"text": "WARNING: DATA RACE" + blk, "accesses": accs})
     return res
 
